@@ -397,9 +397,13 @@ func init() {
 				var resVV []ssa.Value
 				var resCS []ssa.Value
 				for _, c := range callsToIn(fn, newID) {
+					resCS = append(resCS, c.Common().Args[0])
+					// the clock-less form (Next(excludeClocks): lamport 0, no vector), spelled through the constructor
+					if z, isZ := prog.IntConst(c.Common().Args[2]); isZ && z == 0 && prog.IsNilConst(c.Common().Args[4]) {
+						continue
+					}
 					resLam = append(resLam, c.Common().Args[2])
 					resVV = append(resVV, c.Common().Args[4])
-					resCS = append(resCS, c.Common().Args[0])
 				}
 				for _, st := range storesTo(fn, lam) {
 					resLam = append(resLam, st.Val)
